@@ -57,6 +57,8 @@ pub enum WireErr {
     NotRepresentable(String),
     Eof,
     Invalid(String),
+    /// the type contains a library type whose wire format is not modelled
+    Opaque,
 }
 
 pub fn min_wire_size(ty: &Ty, ver: u32) -> usize {
@@ -67,6 +69,7 @@ pub fn min_wire_size(ty: &Ty, ver: u32) -> usize {
         Ty::Seq(_, _) | Ty::Map(_, _, _) => 8,
         Ty::Array(t, n) => n * min_wire_size(t, ver),
         Ty::Tuple(ts) => ts.iter().map(|t| min_wire_size(t, ver)).sum(),
+        Ty::Lib(l) if l.opaque => 0,
         Ty::Lib(l) => min_wire_size(&l.wire, ver),
         Ty::Def(d) => match &d.kind {
             DefKind::Struct(s) => s
@@ -114,6 +117,7 @@ fn enc(ty: &Ty, v: &Val, ver: u32, e: &mut Enc) -> Result<(), WireErr> {
             enc(t, x, ver, e)
         }
         (Ty::Wrap(_, t), x) => enc(t, x, ver, e),
+        (Ty::Lib(l), _) if l.opaque => Err(WireErr::Opaque),
         (Ty::Lib(l), x) => enc(&l.wire, x, ver, e),
         (Ty::Seq(_, t), Val::Seq(items)) => {
             e.mark(8, MarkKind::SeqLen, min_wire_size(t, ver), items.len() as u64);
@@ -315,6 +319,7 @@ fn dec(ty: &Ty, ver: u32, d: &mut Dec) -> Result<Val, WireErr> {
             _ => Val::Err(Box::new(dec(e, ver, d)?)),
         },
         Ty::Wrap(_, t) => dec(t, ver, d)?,
+        Ty::Lib(l) if l.opaque => return Err(WireErr::Opaque),
         Ty::Lib(l) => dec(&l.wire, ver, d)?,
         Ty::Seq(_, t) => {
             let n = d.le(8)?;
